@@ -240,12 +240,11 @@ example : ((run exCfg init exCascade).db 3 1).map (· 0) = some none ∧
     (opRead exCfg (run exCfg init exCascade) 1 0).2 = .val none ∧
     ((run exCfg init exCascade).db 5 1).isNone = true ∧ ((run exCfg init exCascade).db 0 1).isNone = true := by decide
 
-/-- the LAZY referrer shows NULL (pending) while its row still holds the deleted id until sync — what the
-    real code does (`row.set` on a lazy object does not write); reads agree with C05/C16 (pending value),
-    the dangling reference in the table is a cascade-policy matter (C12) -/
+/-- the LAZY referrer is flushed inside `destroySelf` (`row.set(fkID=None); row.syncUpdate()`): it shows NULL,
+    its row holds NULL, nothing stays pending -/
 example : (opRead exCfg (run exCfg init exCascade) 2 0).2 = .val none ∧
-    ((run exCfg init exCascade).db 4 1).map (· 0) = some (some 1) ∧
-    ((run exCfg init exCascade).objs 2).map (·.pending) = some [(0, none)] := by decide
+    ((run exCfg init exCascade).db 4 1).map (· 0) = some none ∧
+    ((run exCfg init exCascade).objs 2).map (·.pending) = some [] := by decide
 
 /-- the hypotheses of `C05_inv_history` are satisfiable by a history with writes, reads, sync, expire, destroy -/
 example : Hist (LibStep exCfg) exCfg init
